@@ -3,7 +3,7 @@
    length of a day in the unit of the timestamps (any integer; the harness uses hours, day = 24);
    `sorted rows` = strictly increasing timestamps; oc = (left bracket closed?, right bracket closed?). *)
 From Coq Require Import ZArith List Bool Arith Lia Sorting.Sorted String.
-From PB Require Import model.M_slice proofs.P_slice.
+From PB Require Import model.M_slice proofs.P_slice proofs.P_unslice.
 Import ListNotations.
 Open Scope Z_scope.
 
@@ -80,24 +80,92 @@ Proof.
 Qed.
 Print Assumptions C13_each_timestamp_once.
 
-(* df_unslice then stitch gives the stitched frame back.  PARTIAL: checked by computation on one family
-   (3 series with gaps, bounds 12 < 36 < 60, every n in 1..3); the general statement
-   (forall ss without NaN values, strictly increasing ubs, n) is NOT proved here - it is covered by the
-   correspondence (model = real df_unslice on every generated case) and by the round-trip oracle. *)
+(* ---- df_unslice.  Setting: k series with strictly increasing timestamps and non-NaN values (df_unslice ends
+   with `nona`, and NaN means "no data" in a stitched frame), k strictly increasing upper bounds u 0 < .. < u (k-1),
+   1 <= n <= k.  F = the stitched frame (P_unslice.F: interval i = (u (i-1), u i] takes the join of series i..i+n-1).
+   Rm m (P_unslice.Rm) is, by definition, what df_unslice assembles for bound m: for i = m-n+1 .. m the column
+   j = m - i of the rows of F lying in interval i, concatenated, NaN dropped - i.e. the rows of F's column j in
+   interval i go to bound i + j. *)
+Theorem C13_unslice_rows day n ss ubs : ksorted ubs -> (1 <= n <= List.length ubs)%nat ->
+  List.length ss = List.length ubs -> Forall ts_sorted ss -> Forall all_some ss ->
+  stitch day (false, true) n ss (UbList ubs) = Some (F day n ubs ss) /\
+  unslice day n (F day n ubs ss) ubs = map (fun m => (nth m ubs 0, Rm day n ubs ss m)) (seq 0 (List.length ubs)) /\
+  map fst (unslice day n (F day n ubs ss) ubs) = ubs /\
+  (forall m, (m < List.length ubs)%nat ->
+     (* the series recovered for bound m is exactly the part of series m that was visible: u (m-n) < t <= u m *)
+     Rm day n ubs ss m = filter (fun p => win day n ubs m (fst p)) (nth m ss []) /\
+     (forall t, win day n ubs m t = true <-> ((n <= m)%nat -> nth (m - n) ubs 0 < t) /\ t <= nth m ubs 0)).
+Proof.
+  intros Hu [Hn1 Hnk] HL S V. split; [now apply stitch_is_F|]. split; [apply unslice_eq|]. split; [apply recovered_keys|].
+  intros m Hm. split; [now apply Rm_exact | intros t; now apply win_spec].
+Qed.
+Print Assumptions C13_unslice_rows.
+
+(* df_unslice returns one series per bound, and stitching those again with the same bounds and n reproduces the frame *)
+Theorem C13_unslice_roundtrip day n ss ubs f : ksorted ubs -> (1 <= n <= List.length ubs)%nat ->
+  List.length ss = List.length ubs -> Forall ts_sorted ss -> Forall all_some ss ->
+  stitch day (false, true) n ss (UbList ubs) = Some f ->
+  let r := unslice day n f ubs in
+  map fst r = ubs /\ stitch day (false, true) n (map snd r) (UbList (map fst r)) = Some f.
+Proof.
+  intros Hu [Hn1 Hnk] HL S V E. rewrite (stitch_is_F day n ubs Hu Hn1 Hnk ss HL S) in E. injection E as <-.
+  cbv zeta. rewrite recovered_keys. split; [reflexivity|].
+  destruct (roundtrip day n ubs Hu Hn1 Hnk ss HL S V) as [HL' [S' HF]].
+  fold (recovered day n ubs ss). rewrite (stitch_is_F day n ubs Hu Hn1 Hnk _ HL' S'). now rewrite HF.
+Qed.
+Print Assumptions C13_unslice_roundtrip.
+
+(* the hypotheses of the two theorems hold on a non-trivial family (3 series with gaps, bounds 12 < 36 < 60, n = 2),
+   and the round trip computes *)
 Definition ex_ss : list ts :=
   [[(0, Some 100); (12, Some 112); (24, Some 124); (36, Some 136); (48, Some 148)];
    [(6, Some 206); (12, Some 212); (30, Some 230); (36, Some 236); (60, Some 260)];
    [(0, Some 300); (24, Some 324); (36, Some 336); (48, Some 348); (72, Some 372)]].
-Theorem C13_unslice_roundtrip_partial :
-  forall n, In n [1; 2; 3]%nat ->
-  match stitch 24 (false, true) n ex_ss (UbList [12; 36; 60]) with
-  | Some f =>
-      let r := unslice 24 (if (1 <? n)%nat then n else 1%nat) f [12; 36; 60] in
-      map fst r = [12; 36; 60] /\ stitch 24 (false, true) n (map snd r) (UbList [12; 36; 60]) = Some f
-  | None => False
-  end.
-Proof. intros n [<-|[<-|[<-|[]]]]; vm_compute; split; reflexivity. Qed.
-Print Assumptions C13_unslice_roundtrip_partial.
+Example C13_unslice_example :
+  ksorted [12; 36; 60] /\ Forall ts_sorted ex_ss /\ Forall all_some ex_ss /\
+  map snd (unslice 24 2 (F 24 2 [12; 36; 60] ex_ss) [12; 36; 60]) =
+    [[(0, Some 100); (12, Some 112)]; [(6, Some 206); (12, Some 212); (30, Some 230); (36, Some 236)];
+     [(24, Some 324); (36, Some 336); (48, Some 348)]].
+Proof.
+  split; [repeat constructor|]. split; [repeat constructor|]. split; [repeat constructor; discriminate | vm_compute; reflexivity].
+Qed.
+
+(* ---- bound lists given as lower bounds, or as lower and upper bounds (frames n ss as in C13_stitch_source:
+   frame i is the join of series i .. i+n-1; `piece` = the rows of a frame inside the bracketed window, padded) *)
+Theorem C13_stitch_lb_list day oc n ss lb : Forall ts_sorted ss -> nondec lb = true ->
+  (* interval i = lb i <(=) t <(=) lb (i+1), the last interval unbounded above *)
+  stitch day oc n ss (LbList lb) =
+    Some (List.concat (zip3 (piece day oc (Nat.min (Nat.max n 1) (List.length ss))) (frames n ss) (map BAt lb) (app (map BAt (tl lb)) [BNone]))) /\
+  (forall w f l u x, In x (piece day oc w f l u) <-> exists r, In r f /\ in_window day oc l u (fst r) = true /\ x = (fst r, pad w (snd r))) /\
+  (* "(]": each timestamp at most once *)
+  (forall f, stitch day (false, true) n ss (LbList lb) = Some f -> sorted f /\ NoDup (map fst f)).
+Proof.
+  intros S N. split; [now apply stitch_lb_exact|]. split.
+  - intros w f l u0 x. unfold piece. rewrite in_map_iff. split.
+    + intros [r [<- Hr]]. apply filter_In in Hr. destruct Hr. exists r. auto.
+    + intros [r [H1 [H2 ->]]]. exists r. split; [reflexivity | apply filter_In; auto].
+  - intros f E. rewrite stitch_lb_exact in E by assumption. injection E as <-.
+    destruct (lb_sorted day (Nat.min (Nat.max n 1) (List.length ss)) (frames n ss) lb (windows_sorted n ss S) N) as [H _].
+    split; [exact H | now apply sorted_NoDup].
+Qed.
+Print Assumptions C13_stitch_lb_list.
+
+Theorem C13_stitch_both_lists day oc n ss lb ub : Forall ts_sorted ss -> nondec lb = true -> nondec ub = true ->
+  (* interval i = lb i <(=) t <(=) ub i *)
+  stitch day oc n ss (BothLists lb ub) =
+    Some (List.concat (zip3 (piece day oc (Nat.min (Nat.max n 1) (List.length ss))) (frames n ss) (map BAt lb) (map BAt ub))) /\
+  (* "(]" and ub i <= lb (i+1) (`sep`): each timestamp at most once *)
+  (sep lb ub -> forall f, stitch day (false, true) n ss (BothLists lb ub) = Some f -> sorted f /\ NoDup (map fst f)) /\
+  (* bounds running in opposite directions are rejected (ValueError) *)
+  (forall lb' ub', nondec lb' <> nondec ub' -> stitch day oc n ss (BothLists lb' ub') = None).
+Proof.
+  intros S N1 N2. split; [now apply stitch_both_exact|]. split.
+  - intros Sp f E. rewrite stitch_both_exact in E by assumption. injection E as <-.
+    destruct (both_sorted day (Nat.min (Nat.max n 1) (List.length ss)) (frames n ss) lb ub (windows_sorted n ss S) N1 Sp) as [H _].
+    split; [exact H | now apply sorted_NoDup].
+  - intros lb' ub' H. unfold stitch. destruct (nondec lb'), (nondec ub'); simpl; try reflexivity; congruence.
+Qed.
+Print Assumptions C13_stitch_both_lists.
 
 (* the hypotheses are satisfiable on a non-trivial series; bounds on index points, all four brackets *)
 Example C13_example :
